@@ -105,6 +105,7 @@ inductive Op where
   | revcomp
   | replaceChar (name : String) (site : Int) (c : Byte)
   | rmGapSites (num den : Nat) (ends : Bool)
+  | compress
 deriving Repr
 
 /-- the float threshold test of the cleaning functions: `cutoff = num/den` as `float64` -/
@@ -185,6 +186,11 @@ def stepOp (b : Bag) : Op → Bag × String
     match removeGapSites (cutoffTest num den) ends b with
     | none => (b, "PANIC")
     | some r => (r.1, sitesStatus r.2.first r.2.last r.2.kept r.2.removed)
+  | .compress =>
+    if !b.isAlign then (b, "na") else
+    match compressBag b with
+    | none => (b, "PANIC")
+    | some r => (r.1, "ok[" ++ plusList r.2 ++ "]")
 
 /-- run a history, collecting the states after every step -/
 def runOps : Bag → List Op → List (Bag × String)
